@@ -37,7 +37,11 @@ def gen_step(rng, kind, doc, texts, round_no, indexed=False):
                  if e.get("in_raw")]
         if not indexed and rng.random() < 0.35:
             # a quote from the accepted view that ends with a pending insertion of an earlier round
-            edits += [e for e in editgen.gen_cross_ins_edit(rng, doc, texts) if not any(e["pi"] == y["pi"] for y in edits)]
+            for e in editgen.gen_cross_ins_edit(rng, doc, texts) + editgen.gen_cross_ins_any(rng, doc, texts):
+                if not any(e["pi"] == y["pi"] for y in edits):
+                    edits.append(e)
+            bad = set(editgen.batch_collisions(doc, edits))
+            edits = [e for i, e in enumerate(edits) if i not in bad]
         for i, e in enumerate(edits):
             if e.get("comment"):
                 e["comment"] = f"r{round_no} {e['comment']}"
@@ -98,7 +102,10 @@ def step_oracle(in_doc, step, r, raw_out, ref):
         edits = step["edits"]
         if (r["applied"], r["skipped"]) != (len(edits), 0):
             fails.append(f"{len(edits)} exact unique non-overlapping edits, reported applied={r['applied']} skipped={r['skipped']}")
-        fails += engine_oracles.oracle_reversible(in_doc, out, author=step["author"])
+        if not any(e.get("state") == "cross_ins" and e.get("shape") for e in edits):
+            # (an edit that reaches into someone else's pending insertion takes that text out of it: the exception
+            # documented with C01 — the round is then not reversible by construction)
+            fails += engine_oracles.oracle_reversible(in_doc, out, author=step["author"])
         exp = editgen.expected_accepted(in_doc, edits)
         got = acc_paras(out)
         if got != exp:
